@@ -132,17 +132,8 @@ _MUTABLE = (ast.List, ast.Dict, ast.Set, ast.ListComp, ast.DictComp,
 
 
 def _is_object(v: ast.expr) -> bool:
-    """Does `v` create an object whose identity matters (it is mutated
-    through its name later)?"""
-    if isinstance(v, _MUTABLE):
-        return True
-    if isinstance(v, ast.Call):
-        f = v.func
-        nm = f.attr if isinstance(f, ast.Attribute) else (
-            f.id if isinstance(f, ast.Name) else "")
-        return nm in ("zeros", "empty", "ones", "full", "array", "copy",
-                      "list", "dict", "set", "zeros_like", "empty_like")
-    return False
+    from sa.srcmodel import creates_object
+    return creates_object(v)
 
 
 def _bind(p: Path, t: ast.expr, v: ast.expr, s: ast.stmt) -> None:
